@@ -42,6 +42,10 @@ def gv_body(rng):
             names.append((list(rng.choice(VAR_NAMES)), [] if rng.random() < 0.7 else [rng.randrange(256) for _ in range(rng.randrange(1, 4))]))
         elif r < 0.7:
             names.append((list(rng.choice(VAR_NAMES).lower()), []))
+        elif r < 0.78:
+            # names that are NOT variable names although a lenient textual parser would read one (or several) into them
+            names.append((list(rng.choice([b" FCGI_MAX_CONNS", b"FCGI_MAX_REQS\n", b"FCGI_MAX_CONNS|FCGI_MAX_REQS", b"FCGI_MPXS_CONNS | FCGI_MAX_REQS",
+                                           b"0x7", b"0xff", b"0x1", b"FCGI_MAX_CONNS ", b"\tFCGI_MPXS_CONNS", b"", b"|", b"FCGI_MAX_CONNS,FCGI_MAX_REQS"])), []))
         elif r < 0.85:
             names.append(([rng.randrange(256) for _ in range(rng.randrange(0, 20))], []))
         else:
